@@ -2,7 +2,7 @@
    option, unit, list, prod, sumbool map to OCaml's; nat, positive, N, Z stay
    inductive).  The entry points fix the generated tables. *)
 From Coq Require Import Extraction ExtrOcamlBasic.
-From YV Require Import PyBase CharTables Tables Html Replace Checks ShellMap Json Reports Include Token Utils Scanner Rpal PState Parser Expand Math Exec Catalogue Tex2txt.
+From YV Require Import PyBase CharTables Tables Html Replace Checks ShellMap Json Reports Include Token Utils Scanner Rpal PState Parser Expand Math Exec Catalogue Tex2txt ClassDecide.
 
 Definition m_replace_phrases := replace_phrases py_isspace py_isalpha py_word.
 Definition m_finditer := finditer py_isalpha py_word.
@@ -27,10 +27,30 @@ Definition m_run_tex2txt (nosp : bool) :=
 Definition m_run_parse (nosp : bool) :=
   run_parse (if nosp then with_nosp py_tables tbl_nosp_skip tbl_nosp_macros
              else py_tables).
+(* does the document lie in the class of the end-to-end theorems (C02, C03,
+   C04, C06, C07, C08, C19)?  The parser state is set up as run_parse does
+   it (packages, classes, definitions file); the answer only feeds the
+   coverage figure in the evidence *)
+Definition m_in_class (nosp : bool) (files : list (str * str)) (lang : str)
+                      (multi simple : bool) (mods : list (bool * str))
+                      (define latex : str) (extr : list str) (fuel : nat)
+  : result bool :=
+  let T := if nosp then with_nosp py_tables tbl_nosp_skip tbl_nosp_macros else py_tables in
+  let rd := fun f => assoc f files in
+  let st0 := init_state T lang multi simple true in
+  do st <- init_parser T rd fuel st0 (t_builtin T) mods;
+  let st := match extr with [] => st | _ => init_extractions st extr end in
+  let st := upd_unknowns (upd_extracted st []) [] in
+  do st <- match define with
+           | [] => Ok st
+           | _ => do r <- parser_work T (exec T rd fuel) st define; Ok (fst r)
+           end;
+  Ok (match extr with [] => doc_in_class T st latex | _ => false end).
+
 Definition m_generate_html :=
   generate_html py_isalpha py_word sh_highlight_style sh_highlight_style_unsure
                 sh_number_style.
 Definition m_protect_html := protect_html.
 
-Extraction "../_build/model.ml" m_run_tex2txt m_run_parse m_scan m_rpal m_get_txt_pos m_generate_html m_protect_html m_file_list m_run_report m_map_match_position m_run_assemble m_replace_phrases m_finditer m_parse_rule
+Extraction "../_build/model.ml" m_run_tex2txt m_run_parse m_in_class m_scan m_rpal m_get_txt_pos m_generate_html m_protect_html m_file_list m_run_report m_map_match_position m_run_assemble m_replace_phrases m_finditer m_parse_rule
   m_single_letter_matches m_equation_messages m_create_context.
